@@ -432,6 +432,8 @@ WiringPortRef wire_node(Scope &sc, const JV &st, std::vector<WiringPortRef> ins)
     nb.label(cfg->label);
     // exactly what wire<T> does for a static node: the input endpoint follows the shape of the sources
     if (!ins.empty()) nb.input_endpoint(graph_wiring_detail::input_endpoint_for_sources(m.input_schema, std::span<const WiringPortRef>{ins.data(), ins.size()}));
+    if (st.bool_or("via_unique", false))   // the never-interned entry point of the wiring API
+        return sc.w->add_unique_node(std::type_index(typeid(DefNode)), std::move(nb), std::span<const WiringPortRef>{ins.data(), ins.size()}, Value{Str{key}});
     return sc.w->add_node(std::type_index(typeid(DefNode)), std::move(nb), std::span<const WiringPortRef>{ins.data(), ins.size()}, Value{Str{key}});
 }
 
